@@ -1,3 +1,4 @@
+import EmmetProofs.ExtractRoundTrip
 import EmmetProofs.ExtractConsistent
 import EmmetProofs.ExtractMore
 /-! # C11 — extract returns a result consistent with the line (all lines, all positions incl. out of range, all options) -/
@@ -29,5 +30,21 @@ example : (extract ("a <ul>li".toList.map Char.toNat) 8 { pfx := [60] }).map (fu
 /-- non-vacuity: `<p>ul>li` at its end extracts `ul>li` at location 3 -/
 example : (extract ("<p>ul>li".toList.map Char.toNat) 8 {}).map (fun r => (r.abbreviation, r.location, r.stop))
     = some ("ul>li".toList.map Char.toNat, 3, 8) := by decide +kernel
+
+/-- round trip (partial: bracket-free abbreviations): a run of abbreviation characters — names, numbers and `# . * : $ - _ ! @ % ^ + > /` —
+that does not begin with a dangling operator, standing at the start of the line or right after a blank, with no `<` anywhere to its left,
+is returned EXACTLY when the caret is at its end: `abbreviation` is the run, `location` / `start` its first column, `end` the caret — for
+both syntax types, look-ahead on or off. (Abbreviations with attribute sets / text / groups, and the "after a complete tag" case, are
+decided by correspondence + oracle.) -/
+theorem C11_roundtrip (pre abbr : X.Str) (a0 : X.Ch) (as : X.Str) (ha : abbr = a0 :: as)
+    (hab : ∀ c ∈ abbr, X.isAbbreviation c = true) (hop : a0 ≠ 42 ∧ a0 ≠ 43 ∧ a0 ≠ 62 ∧ a0 ≠ 94)
+    (hpre : pre = [] ∨ ∃ ps b, pre = ps ++ [b] ∧ X.isWs b = true) (hlt : 60 ∉ pre) (markup lookAhead : Bool) :
+    X.extract (pre ++ abbr) ((pre ++ abbr).length : Int) { markup := markup, lookAhead := lookAhead, pfx := [] }
+      = some ⟨abbr, pre.length, pre.length, (pre ++ abbr).length⟩ :=
+  X.extract_roundtrip pre abbr a0 as ha hab hop hpre hlt markup lookAhead
+
+/-- non-vacuity: `foo ul>li.item$*3` -/
+example : (X.extract ("foo ul>li.item$*3".toList.map Char.toNat) 17 {}).map (fun r => (r.abbreviation.length, r.location)) = some (13, 4) := by
+  decide +kernel
 
 end EmmetProps
